@@ -32,15 +32,16 @@ def _p(claim, props=None, level="other", streams=None):
 
 
 PROPS = {
-    "C01": _p("Proof (partial), about the election model and the graph-level rules of Spec/ElectionRules.lean. (a) C01_election_order_independent / C01_election_same_result: for one valid "
-              "history with accepted frames and forkers below one third, two runs of the election model for the same frame (different forkless-cause oracles, root tables "
-              "and feeding orders; each oracle answers the graph forkless cause, each table lists the graph's roots, each feed is closed = every root fed after the "
-              "previous-frame roots it forkless-causes, e.g. any parents-first or frame-ascending order) return the same Atropos; and if one feed makes the election return an Atropos, every closed "
-              "feed containing the same later-frame roots returns it too (neither nothing nor an error). From L2, L4, uniqueness of the Atropos and the single-election refinement of C10 and its converse. "
-              "(b) C01_order_independent_partial: the (frame, Atropos) sequences of two instances are identical (same length, same entries) under explicit named hypotheses that are NOT proved: "
-              "OraclesAgree (C05: index = graph forkless cause in any indexing order; C33+C04: root table = graph roots; canonical validator set), FramesAccepted (C04), "
-              "BlocksFromElections and OpenElection (L5: every emitted block is the result of one election run from reset; the election open at the end has been fed every later root and returned nothing - "
-              "this also assumes away the all-decided-no error, i.e. L6), FramesConsecutive (C02). Not proved: L5, L6 / 'accept every event', cheater lists (C03/C06), epoch transitions. "
+    "C01": _p("Proof (partial: one epoch, (frame, Atropos) sequences), about the implementation-level model Model/Orderer.lean + Model/Election.lean (kernels regenerated from abft/) and the graph-level rules of Spec/ElectionRules.lean. "
+              "C01_order_independent_partial: let N be a valid history (Valid = what the event checkers guarantee; FramesAccepted = every claimed frame obeys the frame rule, the quorum counted over roots other than the event itself) "
+              "whose forking validators hold less than one third of the weight. Two instances of the model, each started by `initial` and each processing ALL events of N with `process` in its own parents-first order, "
+              "both accept every event (no wrong-frame rejection, none of the election errors two-fork-roots / missing-vote / not-enough-votes / all-decided-no), emit the same (frame, Atropos) sequence and end with the same last decided frame. "
+              "Proved through L5 (invariant of Orderer.process over any parents-first history: roots table = graph roots of the processed events; blocks carry frames 1,2,... and the Atropos of the rules; the open election decides ldf+1, "
+              "stores exactly the votes/decisions of the rules for all known later roots, and has decided everything decidable), L2, L4, uniqueness of the Atropos and L6 (for every frame >= 1 some validator is not decided no; proved by weighted double counting over round-1 votes). "
+              "Hypotheses remaining beyond the property's own (hence _partial): each instance's forkless-cause oracle answers the graph relation N.FC on the event numbers of N (C05); each validator record is the canonical one with total <= 2^31-1 (C12); "
+              "accepted frames < 2^31; the application never seals (one epoch). No longer assumed (now derived): BlocksFromElections, OpenElection, FramesConsecutive, not-all-decided-no, root table = graph roots. "
+              "Also C01_election_order_independent / C01_election_same_result: one election, any two closed feeds (other oracles, other orders) return the same Atropos. "
+              "Not proved: equality of cheater lists (C03/C06), epoch transitions / several epochs (C09), restarts (C08). "
               "Correspondence: every instance's accept/reject decisions, blocks, cheaters and epoch transitions are compared with the graph-level reference, which is "
               "order-free by construction; instances process the same events in different random parents-first orders.",
               props=["LachesisVerif.Props.C01"], level="proof"),
@@ -91,26 +92,61 @@ PROPS = {
               props=["LachesisVerif.Props.C06"], level="proof", streams=["vec", "cons"]),
     "C07": _p("Proof (partial): the forkless-cause result cache (the only volatile state that survives DropNotFlushed) is transparent for every "
               "history of adds, commits, roll-backs, queries and evictions, provided an id never denotes two different events (negative witness for "
-              "the pre-fix temporary ids); the Orderer model writes nothing before the frame check. Not proved: determinism of the uncached answer "
-              "for the vector model (= C05 stability), restoration of vector/branch tables by DropNotFlushed. Correspondence: speculative builds and "
+              "the pre-fix temporary ids); the Orderer model writes nothing before the frame check. Determinism of the uncached answer is discharged "
+              "for the vector model: fc_deterministic_prefix (= C05 stability) and fc_deterministic (two valid index states over one graph with "
+              "consistent ids answer alike: C05_fc_eq_spec + the graph definition only depends on A's ancestry); C07_cache_transparent_vec: for all "
+              "sequences of add-an-event / roll-back-to-a-prefix / query / evict over one valid history every cached answer equals the uncached vector "
+              "answer of the current state (C07_cache_transparent_vec_ids: same for arbitrary valid index states over one graph). "
+              "Not proved: restoration of the real vector/branch tables by DropNotFlushed (the model's roll-back is the index of the prefix). "
+              "Correspondence: speculative builds and "
               "rejected wrong-frame events are injected on the builder instance only; the other instances never see them; "
               "all instances must keep agreeing with the reference (which ignores them by construction).",
               props=["LachesisVerif.Props.C07"], level="proof"),
-    "C08": _p("Instances are restarted (fresh Store caches, fresh vecfc.Index over the kept DBs) at random event boundaries; later outputs must "
-              "equal the reference, which has no notion of restart."),
-    "C09": _p("Proof (reference level): a Process call that emits a sealed block ends with it and leaves exactly the fresh state of the next "
-              "epoch with the requested set (= the state a direct Reset produces, hence identical continuations). Correspondence: seals at arbitrary "
-              "frames with mutated/unchanged sets on the real code.", props=["LachesisVerif.Props.C09"], level="proof"),
+    "C08": _p("Proof (partial): on Model.Orderer (persisted = epoch, validators, LastDecidedFrame, roots table; volatile = the election; restart = "
+              "bootstrap, which re-creates the election at LastDecidedFrame+1 and re-votes the known roots in table order). Unconditional: a restart that "
+              "decides nothing leaves the persisted part untouched and its outcome does not depend on the volatile part (C08_persisted_unchanged, "
+              "C08_volatile_irrelevant); frameToDecide = LastDecidedFrame+1 and election validators = epoch validators are invariants of Process (C08_sync). "
+              "Under the hypotheses of C10_single_election_partial for the open election (canonical validators, observe = graph forkless cause, roots table = "
+              "graph roots, slot uniqueness, accepted frames) plus named hypotheses: the election rebuilt by the restart is equivalent to the running one - same "
+              "subjects decided with the same yes/no and observed root (= the graph-level decisions), the same votes of every known later root on every "
+              "undecided subject (= the graph-level voteYes) - and bootstrap returns the same persisted state and no block (C08_restart_election_equiv_partial); "
+              "the next processRoot has the same outcome in both (C08_next_root_equiv_partial); and for ONE further Process step the restarted instance gives "
+              "the same accept/reject, the same election error if any, the same decided frames, and equal persisted states afterwards "
+              "(C08_restart_next_process_partial; identical states as soon as a frame is decided). Named hypotheses, NOT proved (consequences of L5 of C10 and of graph "
+              "facts): RunningFeed (the running election is the result of a closed feed of exactly the known later roots that returned nothing), Contiguous (no "
+              "empty frame below a frame with roots), root frames < 2^32, at least one validator, the new event is not forkless-caused by known roots, Setup for "
+              "the table including the new event's roots. Not proved: lifting from one step to all later steps (= L5 as an invariant), restarts that decide "
+              "frames on start-up, the vector-index reload (observe is assumed to be the same function before and after), store caches (C33). "
+              "Non-vacuity: one-validator example satisfying all hypotheses of C08_restart_election_equiv_partial. "
+              "Correspondence: instances are restarted (fresh Store caches, fresh vecfc.Index over the kept DBs) at random event boundaries; later outputs must "
+              "equal the reference, which has no notion of restart.",
+              props=["LachesisVerif.Props.C08"], level="proof"),
+    "C09": _p("Proof. Implementation level (Model.Orderer, run in lock-step against the Go code; unconditional in the oracles): if EndBlock returns a "
+              "set at block (E,f), the state after onFrameDecided is literally Model.Orderer.initial (E+1 as idx.Epoch) set = the state Reset produces "
+              "(LastDecidedFrame 0, frame to decide 1, no roots, fresh election), hence process/build/bootstrap continuations coincide "
+              "(C09_seal_state, C09_initial_fields, C09_reset_equiv); in the decided frames returned by one Process / handleElection / "
+              "bootstrapElection / Bootstrap call only the LAST entry can be sealed, all entries belong to the old epoch, after a sealed entry the "
+              "returned state is that fresh state, without a seal epoch and validators are unchanged (C09_no_block_after_seal, by induction over the "
+              "loop fuel); decided frames of one call are consecutive from the frame to decide (C09_frames_consecutive, C09_next_frame). Reference "
+              "level: the same statement for Spec.Lachesis (C09_seal_switches_cleanly). Non-vacuity: executable one-validator runs sealing at frame 2. "
+              "Correspondence only: that sealEpoch really empties the epoch DB / vector tables of the real store, and the confirmed-events half of "
+              "'same blocks'; seals at arbitrary frames with mutated/unchanged sets and Reset twins on the real code.",
+              props=["LachesisVerif.Props.C09"], level="proof"),
     "C10": _p("Proof (partial). On the election model (regenerated kernels): Atropos choice rule, vote rule (tie = yes, decision on quorum), round arithmetic; invariants of any run of "
               "processRoot from reset (yes-votes name a root of the frame to decide in the subject's slot, decisions only in rounds >= 2 and once per subject, returned frame = frameToDecide). "
               "On the graph-level rules (Spec/ElectionRules.lean: forkless cause = FCSpec of C05, roots, frame rule, votes by recursion on the round, decisions, Atropos, BFT): L1 (two quorums share a "
               "never-forking validator), L2 (under Valid, accepted frames and forkers < 1/3, two different roots of one slot are never both forkless-caused), L3 (votes and decisions of old events do not "
-              "change when the history grows), L4 (a decision fixes all later votes and excludes the opposite decision), uniqueness of the Atropos. Tie (C10_single_election_partial / _BFT / _complete / "
-              "_same_result): one election of the model fed roots in any closed order (e.g. frame-ascending) with observe = graph forkless cause and frameRoots = the roots by frame stores exactly the "
-              "votes and decisions of the rules, never reaches two-fork-roots / missing-vote / not-enough-votes, reports all-no only if the rules decide every validator no, a returned Atropos is the "
-              "Atropos of the rules (slot uniqueness discharged from BFT by L2); conversely every decision the rules derive from a fed root is stored, and any closed feed containing the same roots "
-              "returns the same Atropos. Not proved: L5 (lifting from one election to whole Orderer runs and epochs: 'model blocks = reference blocks'), L6, equivalence of the executable reference "
-              "Spec/Lachesis.lean with the Prop-level rules. "
+              "change when the history grows), L4 (a decision fixes all later votes and excludes the opposite decision), uniqueness of the Atropos, L6 (L6_not_all_decided_no: for every frame >= 1 some validator is not decided no; "
+              "the statement is false for frame 0, which is never decided). Single election (C10_single_election_partial / _BFT / _complete / _same_result): one election of the model fed roots in any closed order with observe = graph forkless cause and a "
+              "roots table that lists graph roots and contains whatever a listed root forkless-causes (any parents-first prefix) stores exactly the votes and decisions of the rules, never reaches two-fork-roots / missing-vote / "
+              "not-enough-votes, a returned Atropos is the Atropos of the rules; conversely every decision the rules derive from a fed root is stored. "
+              "L5 (L5_process_invariant, L5_run_invariant, L5_facts), for whole Orderer.process runs of one epoch in any parents-first order: after every process call the roots table is exactly the graph roots of the processed events, "
+              "the open election has frameToDecide = ldf+1 and holds the votes/decisions of the rules for all known roots of later frames (all fed), everything decidable from the known roots has been decided, every event was accepted without error, "
+              "and every emitted block carries the next frame and the Atropos of the rules. C10_model_eq_rules_partial: the (frame, Atropos) sequence the model emits over all events of a history is exactly the sequence of Atropoi of the Prop-level rules for frames 1,2,... up to the first frame without Atropos. "
+              "Hypotheses of L5 beyond valid events + forkers < 1/3: observe = graph forkless cause (C05), canonical validator record with total <= 2^31-1 (C12), frames < 2^31, no sealing (one epoch). "
+              "Reference equivalence (reference_anc_eq_rules, reference_fork_eq_rules, reference_hb_eq_rules, reference_fc_eq_rules, reference_fc_eq_rules_reachable, reference_hist_valid): for every instance of the executable reference Spec/Lachesis.lean built by Inst.insert "
+              "(and every state the oracle reaches through process), bit-mask ancestry = Anc, forkIn / fork masks = ForkSeen, hbSpec = ForkSeen/MaxSeq, fcSpec = FCSpec = Net.FC with the same quorum; the associated history is Valid when inserted events pass the event checks. "
+              "Not proved: the frame/election part of the executable reference (rootsAt, quorumOn, allowed, votes, atroposSpec, decideLoop) versus the Prop-level rules, so 'model blocks = reference blocks' is proved against the Prop-level rules only; cheaters and confirmed events of a block; several epochs; restarts. "
               "Correspondence (three-way): accepted frames and emitted blocks of the real code equal those of the independent reference implementation on every generated "
               "event set (forks below one third).", props=["LachesisVerif.Props.C10"], level="proof"),
     "C33": _p("Proof: for every history of addRoot/GetFrameRoots/epoch switches and EVERY cache eviction policy, GetFrameRoots f returns exactly "
